@@ -1,5 +1,6 @@
 """C05  Polynomial division terminates and satisfies dividend = q*divisor + r (E1 + loop-state monitor)."""
 import itertools
+import math
 import signal
 from fractions import Fraction
 
@@ -133,9 +134,13 @@ def residual_small(dividend, divisor, q, r):
         for c in v.t.values():
             for x in c.ravel().tolist():
                 scale = max(scale, abs(complex(x)))
+    if not math.isfinite(scale):
+        # all operands of the universe are finite: an infinite or NaN coefficient in q or r cannot satisfy the identity
+        # (inf*0 is NaN, and NaN compares false with everything - it must not pass for "small"; seeded/C05-U)
+        return False, res
     for c in res.t.values():
         for x in c.ravel().tolist():
-            if abs(complex(x)) > 1e-9 * scale:
+            if not abs(complex(x)) <= 1e-9 * scale:
                 return False, res
     return True, res
 
@@ -348,6 +353,18 @@ def run_arrays(R, nonzero_divisors=False, tag=None):
             judge_divmod(R, f"arrays {sa}/{sb} rot {ra},{rb}", build_checked(spa), build_checked(spb), model_of(spa), model_of(spb),
                          ["arrays"] + ([tag] if tag else []), None)
             R.state(("arr", sa, sb, ra, rb))
+    if not nonzero_divisors:
+        # divisor arrays made of constants only, zero and non-zero entries mixed (a shortcut for "the divisor is a plain number
+        # array" sees these as a whole; seeded/C05-U), against every dividend rotation
+        for cvals in ([2, 0, 4], [0, -1, 0], [3, 0, -2], [0, 0, 3]):
+            cpool = [[((0,), v)] if v else [] for v in cvals]
+            for sa, sb in [((3,), (3,)), ((2, 3), (3,)), ((), (3,)), ((2, 1), (1, 3)), ((3,), (1,))]:
+                for ra in range(3):
+                    spa = space.array_spec(names, sa, space.fill(pool, sa, ra, 1))
+                    spb = space.array_spec(names, sb, space.fill(cpool, sb, 0, 1))
+                    judge_divmod(R, f"arrays {sa}/constants {cvals} in {sb} rot {ra}", build_checked(spa), build_checked(spb), model_of(spa),
+                                 model_of(spb), ["arrays", "constant_divisor_array"], None)
+                    R.state(("arrc", tuple(cvals), sa, sb, ra))
     names2 = ("q0", "q1")
     pool2 = [[((1, 0), 1)], [((0, 1), 2)], [((1, 1), 1), ((0, 0), 1)], [], [((0, 0), -2)], [((2, 0), 1)]]
     dpool2 = [t for t in pool2 if t] if nonzero_divisors else pool2
